@@ -32,6 +32,8 @@ ExecFail == /\ l <= Len(Trace) /\ Trace[l].ev = "execve" /\ Trace[l].target /\ ~
 ExitEv == /\ l <= Len(Trace) /\ Trace[l].ev = "exit"
           /\ \/ (Exit /\ exitCode' = Trace[l].code)
              \/ ((Args \/ Parse \/ Load \/ Exec) /\ pc' = "exited" /\ exitCode' = Trace[l].code)
+             \* the failing step was logged itself (a refused seccomp call): the exit event reports the status it led to
+             \/ (pc = "exited" /\ exitCode = Trace[l].code /\ UNCHANGED vars)
           /\ l' = l + 1
 TNext == Begin \/ Silent \/ SeccompOK \/ SeccompFail \/ ExecTarget \/ ExecFail \/ ExitEv
 TSpec == TInit /\ [][TNext]_tvars
